@@ -125,6 +125,11 @@ class OpWorld(World):
         self.now_term = None
         self.timers = []  # timers the real code scheduled: dict(due, action, state, handle)
         self.spec_timers = []
+        #: subjects created by the operator (windows, groups): the k-th one of the real code is the k-th one of the spec
+        self.nsubj = {"impl": 0, "spec": 0}
+        #: live views of a state collection (id(ListObj) -> name of the cell it is a view of)
+        self.live_views = {}
+        self.side = "impl"
 
     def getattr(self, it, o, name):
         if o.kind == "scheduler" and name == "now":
@@ -163,8 +168,154 @@ class OpWorld(World):
         """an object read back from a symbolic list of references"""
         if role == "source":
             return Opaque("source", it.ctx.fresh_name("queued"), term=t,
-                          lock=Opaque("lock", "queued.lock", reentrant=True))
+                          lock=Opaque("lock", "queued.lock", reentrant=True), _isa=("ObservableBase", "Observable"))
         return Opaque(role, it.ctx.fresh_name(role), term=t)
+
+    def truthy(self, it, o):
+        if o.kind == "refmap":
+            return it.truth(BoolSV(z3.Length(o.attrs["vals"]) > 0), f"{o.name} is not empty")
+        return super().truthy(it, o)
+
+    def call_callback(self, it, o, args, kwargs):
+        r = super().call_callback(it, o, args, kwargs)
+        kind = o.attrs.get("returns")
+        if kind == "source":
+            return self.deref(it, "source", r.t)  # the callback hands back an observable (a duration, a boundary, ...)
+        if kind == "subject":
+            it.ctx.assume(z3.And(r.t != smt.NONE, r.t != ABSENT, IS_SUBJ(r.t)))
+            return self.deref(it, "subject", r.t)
+        return r
+
+    # -- subjects the operator creates itself (windows, groups) and collections of them ---------------------------
+    def new_subject(self, it):
+        """`Subject()` in the real code / `out.new_subject()` in the spec: the k-th creation of either side is the same
+        (fresh) object.  Subject is used through its contract (C20): calls on it are events of its own channel."""
+        side = getattr(self, "side", "impl")
+        k = self.nsubj[side]
+        self.nsubj[side] += 1
+        t = z3.Const(f"new_subject_{k}", smt.Val)
+        it.ctx.assume(z3.And(t != smt.NONE, t != ABSENT, IS_SUBJ(t)))
+        for old in getattr(self, "known_refs", []):
+            it.ctx.assume(t != old)  # a new object is none of those that exist already
+        return Opaque("subject", f"subject#{k}", term=t)
+
+    def known(self, t):
+        self.__dict__.setdefault("known_refs", []).append(t)
+
+    def make_refmap(self, it, name):
+        """an (ordered) dict from user keys to subjects, known abstractly: `m` maps a key to its subject or to ABSENT,
+        `vals` is the sequence of the values in iteration order (A-key: dict key equality is the equality of Val)"""
+        m = z3.Const(it.ctx.fresh_name(name + "_map"), z3.ArraySort(smt.Val, smt.Val))
+        vals = it.ctx.fresh(name + "_values", "seq").t
+        return Opaque("refmap", name, m=m, vals=vals)
+
+    def refmap_call(self, it, o, method, args):
+        ctx = it.ctx
+        m, vals = o.attrs["m"], o.attrs["vals"]
+
+        def read(key):
+            t = z3.Select(m, it.to_val(key))
+            ctx.assume(z3.Or(t == ABSENT, IS_SUBJ(t)))  # only subjects are ever stored (checked at every store)
+            return t
+        if method == "get":
+            t = read(args[0])
+            if ctx.branch(t == ABSENT, f"{o.name}: key absent"):
+                return args[1] if len(args) > 1 else None
+            return self.deref(it, "subject", t)
+        if method == "__getitem__":
+            t = read(args[0])
+            if ctx.branch(t == ABSENT, f"{o.name}: key absent"):
+                raise PyExc(it.make_exc("KeyError", "key"))
+            return self.deref(it, "subject", t)
+        if method == "__contains__":
+            return BoolSV(read(args[0]) != ABSENT)
+        if method == "__setitem__":
+            k, v = it.to_val(args[0]), it.to_val(args[1])
+            h = self.harness
+            if h is not None and getattr(self, "side", "impl") == "impl":
+                h.record(ctx, f"{h.step_uid}/{o.name}/only-subjects-are-stored-in-the-map", z3.And(IS_SUBJ(v), v != ABSENT), kind="frame",
+                         detail="the map from keys to live groups holds subjects only (every value is sent the terminal notifications)")
+            old = z3.Select(m, k)
+            if ctx.branch(old != ABSENT, f"{o.name}: key present (overwrite)"):
+                vals2 = SEQ_REPLACE(vals, old, v)
+            else:
+                vals2 = z3.Concat(vals, z3.Unit(v))
+            o.attrs["m"], o.attrs["vals"] = z3.Store(m, k, v), vals2
+            return None
+        if method == "__delitem__":
+            k = it.to_val(args[0])
+            old = z3.Select(m, k)
+            if ctx.branch(old == ABSENT, f"{o.name}: key absent"):
+                raise PyExc(it.make_exc("KeyError", "key"))
+            o.attrs["m"], o.attrs["vals"] = z3.Store(m, k, ABSENT), SEQ_WITHOUT(vals, old)
+            return None
+        if method == "values":
+            lst = ListObj(term=vals, elem="ref:subject")
+            self.live_views[lst.oid] = (o.name, lst)
+            return lst
+        if method == "__len__":
+            return IntSV(z3.Length(vals))
+        raise Unsupported(f"dict method {method} on the abstract map {o.name}")
+
+    def broadcast(self, it, lst, method, args):
+        """`for w in <symbolic list of subjects>: w.m(args)`: one event, every member in order"""
+        self.broadcast_multi(it, lst, [(method, args)])
+
+    def broadcast_multi(self, it, lst, calls):
+        side = getattr(self, "side", "impl")
+        h = self.harness
+        if side == "impl" and h is not None and getattr(h, "in_handler", False):
+            # call-out discipline: the subscribers of these subjects run inside the loop; whatever of the operator they can
+            # re-enter (handlers of its per-group / per-window families) must not change the collection under the loop
+            cell = None
+            if lst.oid in self.live_views:
+                cell = self.live_views[lst.oid][0]
+            else:
+                for n in h.c.cells:
+                    try:
+                        get, _set, leaf = resolve_path(it, h.cur_cells_env, n)
+                        if get(leaf) is lst:
+                            cell = n
+                    except (Unsupported, KeyError):
+                        pass
+            if cell is not None and cell in getattr(h, "family_mutates", set()):
+                h.fail(it.ctx, f"{h.step_uid}/loop-over-{cell}/iterates-a-snapshot-while-calling-out",
+                       f"the loop walks `{cell}` itself while calling {', '.join(m for m, _ in calls)} on its members: a subscriber of such a "
+                       f"member (e.g. a duration derived from the group) re-enters a handler of the operator that changes `{cell}` under the "
+                       f"running loop (RuntimeError: mutated during iteration; later members never get the notification)", kind="inv")
+        for method, args in calls:
+            payload = self.lift(it, args[0]) if args else None
+            self.struct[side].append(("each", lst.term, method, payload))
+            self.events.append(("each", side, method))
+
+    def broadcast_general(self, it, st, env, lst):
+        """a loop over a symbolic list of subjects whose body is not literally `x.m(args)`: run ONE iteration for an arbitrary
+        member; it must do nothing but call that member (no state change, nothing downstream, no break) - then the loop is
+        those calls on every member in order"""
+        import ast
+
+        side = getattr(self, "side", "impl")
+        h = self.harness
+        if not isinstance(st.target, ast.Name) or st.orelse:
+            raise Unsupported("loop over a symbolic list of objects: target / else")
+        e = it.ctx.fresh("member", "val").t
+        it.ctx.assume(z3.And(z3.Contains(lst.term, z3.Unit(e)), IS_SUBJ(e), e != ABSENT, e != smt.NONE))
+        n0 = len(self.struct[side])
+        ev0 = len(self.events)
+        before = h.cell_identities(it) if h is not None and h.cur_cells_env is not None else {}
+        it.assign(st.target, self.deref(it, lst.elem[4:], e), env)
+        try:
+            it.exec_block(st.body, env)
+        except (_Break, _Continue):
+            raise Unsupported("loop over a symbolic list of objects: break / continue")
+        after = h.cell_identities(it) if h is not None and h.cur_cells_env is not None else {}
+        new = self.struct[side][n0:]
+        if any(not _same_identity(before[n], after.get(n)) for n in before):
+            raise Unsupported("loop over a symbolic list of objects: the body changes operator state")
+        if any(x[0] == "down" for x in self.events[ev0:]) or not new or any(x[0] != "to" or not z3.eq(x[1], e) for x in new):
+            raise Unsupported("loop over a symbolic list of objects: the body is not just calls on the loop variable")
+        del self.struct[side][n0:]
+        self.broadcast_multi(it, lst, [(x[2], [ValSV(x[3])] if x[3] is not None else []) for x in new])
 
     def new_source(self, it, name):
         return Opaque("source", name, lock=Opaque("lock", f"{name}.lock", reentrant=True), _isa=("ObservableBase", "Observable"))
@@ -210,7 +361,7 @@ class OpWorld(World):
             s.fields[sname] = o.attrs["source"]
         idx = len(self.cspecs)
         state = {"stopped": False, "in_stopped": False}
-        out = Opaque("observer", f"stage{idx}", handlers=tuple(hs), state=state)
+        out = Opaque("observer", f"stage{idx}", handlers=tuple(hs), state=state, side=getattr(self, "side", "impl"))
         self.cspecs.append((s, c, state, out))
         h.spec_call(it, s, "init", [])
         h.spec_call(it, s, "on_subscribe", [out])
@@ -265,18 +416,46 @@ class OpWorld(World):
             hn, he, hc = o.attrs["handlers"]
             if st["stopped"]:
                 return None
-            if method == "on_next":
-                if hn is not None:
-                    it.call(hn, [args[0]], {})
+            # the consumer of the stage is code of the side that subscribed to it (the stage's spec machine runs as "spec")
+            prev_side = getattr(self, "side", "impl")
+            self.side = o.attrs.get("side", prev_side)
+            try:
+                if method == "on_next":
+                    if hn is not None:
+                        it.call(hn, [args[0]], {})
+                    return None
+                st["stopped"] = True
+                if method == "on_error":
+                    if he is None:
+                        raise PyExc(args[0])  # default_error re-raises
+                    it.call(he, [args[0]], {})
+                elif hc is not None:
+                    it.call(hc, [], {})
                 return None
-            st["stopped"] = True
-            if method == "on_error":
-                if he is None:
-                    raise PyExc(args[0])  # default_error re-raises
-                it.call(he, [args[0]], {})
-            elif hc is not None:
-                it.call(hc, [], {})
+            finally:
+                self.side = prev_side
+        if k == "subject" and method in ("on_next", "on_error", "on_completed"):
+            side = getattr(self, "side", "impl")
+            payload = self.lift(it, args[0]) if args else None
+            self.struct[side].append(("to", o.attrs["term"], method, payload))
+            self.events.append(("to", side, method))
+            h = self.harness
+            if h is not None and getattr(h, "in_handler", False) and getattr(h.c, "reentrant", False):
+                # a subscriber of the window / group may call back into the operator from here
+                if side == "impl":
+                    self.snaps["impl"].append(h.capture_impl())
+                elif h.cur_spec is not None:
+                    self.snaps["spec"].append(h.capture_spec(h.cur_spec))
             return None
+        if k == "refmap":
+            return self.refmap_call(it, o, method, args)
+        if k == "observer" and o.name == "spec_out" and method == "new_subject":
+            return self.new_subject(it)
+        if k == "observer" and o.name == "spec_out" and method in ("group", "share"):
+            # spec primitive: the observable face of a subject handed downstream (key, subject, holds a share of the subscription)
+            if method == "share":
+                return shared_face(it, None, args[0], True)
+            return shared_face(it, args[0], args[1], args[2])
         if k in ("source", "specobs") and method == "pipe":
             cur = o
             for op in args:
@@ -419,6 +598,22 @@ from .contract import OpContract  # noqa: E402,F401
 
 SPEC_HELPERS = {}
 
+#: abstract maps from keys to subjects (group_by_until's writers): the value of a key that is not in the map
+ABSENT = z3.Const("ABSENT", smt.Val)
+IS_SUBJ = z3.Function("is_subject", smt.Val, z3.BoolSort())
+SEQ_WITHOUT = z3.Function("seq_without", smt.SeqVal, smt.Val, smt.SeqVal)
+SEQ_REPLACE = z3.Function("seq_replace", smt.SeqVal, smt.Val, smt.Val, smt.SeqVal)
+SHARED = z3.Function("shared_face", smt.Val, smt.Val, z3.BoolSort(), smt.Val)
+
+
+def shared_face(it, key, subject, shares):
+    """the observable handed downstream for a window / group: (key, underlying subject, whether subscribing to it takes a
+    share of the operator's ref-counted subscription).  add_ref and GroupedObservable are used through this contract; their
+    own bodies are verified against it in the grouping unit."""
+    sh = shares if isinstance(shares, bool) else it.truth(shares, "shares the subscription")
+    t = SHARED(it.to_val(key), it.to_val(subject), z3.BoolVal(bool(sh)))
+    return Opaque("shared", "face", term=t, key=key, subject=subject)
+
 
 def _helper(name):
     def deco(f):
@@ -459,6 +654,15 @@ def _h_contains(it, args, kw):
 def _h_same(it, args, kw):
     """identity/equality of terms (not py_eq)"""
     a, b = args
+    if isinstance(a, Opaque) and a.kind == "refmap" or isinstance(b, Opaque) and b.kind == "refmap":
+        def mv(v):
+            if isinstance(v, Opaque) and v.kind == "refmap":
+                return v.attrs["m"], v.attrs["vals"]
+            if isinstance(v, DictObj) and not v.symbolic and not v.d:
+                return z3.K(smt.Val, ABSENT), z3.Empty(smt.SeqVal)
+            raise Unsupported("same(): an abstract map against something else")
+        (ma, va), (mb, vb) = mv(a), mv(b)
+        return BoolSV(z3.And(ma == mb, va == vb))
     if isinstance(a, (SetObj, DictObj)) and type(a) is type(b):
         # sets / dicts are compared by their insertion histories (equal histories: equal contents, and they stay so)
         def hist(v):
@@ -508,6 +712,17 @@ _helper("aged_prefix_vals")(_seqfun_helper("aged_prefix_vals", "val"))
 _helper("young_vals")(_seqfun_helper("young_vals", "val"))
 
 
+@_helper("maps_to")
+def _h_maps_to(it, args, kw):
+    """maps_to(map, key, subject): the abstract map holds exactly this subject for the key"""
+    mp, key, ref = args
+    if isinstance(mp, Opaque) and mp.kind == "refmap":
+        return BoolSV(z3.Select(mp.attrs["m"], it.to_val(key)) == it.to_val(ref))
+    if isinstance(mp, DictObj) and not mp.symbolic and not mp.d:
+        return False
+    raise Unsupported("maps_to on a concrete map")
+
+
 @_helper("field")
 def _h_field(it, args, kw):
     """field(o, name, default): o.name when o is a record, else the default (total: usable under a false premise)"""
@@ -536,6 +751,9 @@ def make_param(it, ctx, name, kind):
         return SV(v.t, "int", tag="datetime")
     if kind == "callback":
         return Opaque("callback", name)
+    if kind in ("callback:source", "callback:subject"):
+        # a user function that hands back an observable / a subject
+        return Opaque("callback", name, returns=kind.split(":")[1])
     if kind == "pred":
         return Opaque("callback", name)
     if kind.startswith("notset:"):
@@ -631,6 +849,15 @@ def havoc_cell(it, ctx, env_or_obj, name, kind, get, set_):
             v = ctx.fresh(name, "int")
             ctx.assume(v.t >= 1)
             set_(name, v)
+    elif kind == "ref:subject":
+        # a variable holding the current window: some subject
+        t = ctx.fresh(name, "val").t
+        ctx.assume(z3.And(t != smt.NONE, t != ABSENT, IS_SUBJ(t)))
+        it.world.known(t)
+        set_(name, Opaque("subject", it.ctx.fresh_name(name), term=t))
+    elif kind == "refmap":
+        o = it.world.make_refmap(it, name)
+        set_(name, o)
     elif kind == "optdisp":
         # nothing yet, or the disposable of an earlier (previous) inner subscription
         if ctx.choose(2, f"{name}_is_none") == 0:
@@ -658,6 +885,24 @@ def resolve_path(it, env, dotted):
     if not isinstance(o, Obj):
         raise Unsupported(f"cell {dotted}: not an object")
     return (lambda n: o.fields[n]), (lambda n, v: o.fields.__setitem__(n, v)), parts[-1]
+
+
+def _same_identity(a, b):
+    if b is None or a[0] != b[0]:
+        return False
+    for x, y in zip(a[1:], b[1:]):
+        if isinstance(x, z3.ExprRef) and isinstance(y, z3.ExprRef):
+            if not z3.eq(x, y):
+                return False
+        elif isinstance(x, tuple) or isinstance(y, tuple):
+            if x != y:
+                return False
+        elif isinstance(x, SV) and isinstance(y, SV):
+            if not z3.eq(x.t, y.t):
+                return False
+        elif x is not y and not (isinstance(x, (int, bool, str, type(None))) and x == y):
+            return False
+    return True
 
 
 class OpHarness:
@@ -774,6 +1019,14 @@ class OpHarness:
 
     def callee_hook(self, it, f, args, kwargs):
         """a contracted operator applied inside the operator under verification is replaced by its contract"""
+        if getattr(self.c, "subjects", False):
+            if isinstance(f, ClassRef) and f.name == "Subject" and not args and not kwargs:
+                return self.w.new_subject(it)
+            if isinstance(f, ClassRef) and f.name == "GroupedObservable":
+                a = list(args) + [kwargs.get("merged_disposable")] * (3 - len(args))
+                return shared_face(it, a[0], a[1], a[2] is not None and a[2] is getattr(self, "disp", None))
+            if isinstance(f, Closure) and f.qualname == "add_ref" and f.module is not None and f.module.name == "reactivex.internal.utils":
+                return shared_face(it, None, args[0], args[1] is getattr(self, "disp", None))
         if not (isinstance(f, Closure) and f.module is not None and hasattr(f.node, "name")):
             return NOTSET
         c = self.callees.get((f.module.name, f.qualname))
@@ -804,7 +1057,7 @@ class OpHarness:
         self.cur_spec = None
         self.cur_cells_env = None
         it = Interp(self.loader, ctx, w)
-        if self.callees:
+        if self.callees or getattr(c, "subjects", False):
             it.call_hook = self.callee_hook
         if self.lockset:
             it.list_hook = self.on_cell_write
@@ -931,7 +1184,7 @@ class OpHarness:
             self.fail(ctx, oid + "/inner-subscriptions/order",
                       f"real code: {[e[0] for e in impl]}, spec: {[e[0] for e in spec]} "
                       f"(sub = subscribes an inner source, dispose-prev = unsubscribes the previous inner, timer = sets a timer, "
-                      f"cancel-timer = cancels a pending timer)")
+                      f"cancel-timer = cancels a pending timer, to = notifies one window/group, each = notifies every open one)")
             return False
         ok = True
         for a, b in zip(impl, spec):
@@ -943,6 +1196,16 @@ class OpHarness:
             elif a[0] == "sub-src":
                 ok &= self.record(ctx, oid + "/subscribes-the-right-source-with-the-subscriber-itself", a[1] == b[1] and a[2] == b[2],
                                   detail=f"real code subscribes source #{a[1]} (subscriber handed over directly: {a[2]}), spec #{b[1]}")
+            elif a[0] in ("to", "each"):
+                what = "window/group" if a[0] == "to" else "every-open-window/group"
+                if a[2] != b[2]:
+                    self.fail(ctx, oid + f"/{what}/receives-the-same-notification", f"real code: {a[2]}, spec: {b[2]}")
+                    ok = False
+                    continue
+                ok &= self.record(ctx, oid + f"/{what}/{a[2]}/goes-to-the-right-" + ("one" if a[0] == "to" else "ones-in-order"), a[1] == b[1],
+                                  detail=f"real code: {z3.simplify(a[1])}, spec: {z3.simplify(b[1])}")
+                if a[3] is not None or b[3] is not None:
+                    ok &= self.record(ctx, oid + f"/{what}/{a[2]}/payload", (a[3] == b[3]) if (a[3] is not None and b[3] is not None) else False)
             elif a[0] == "timer":
                 ok &= self.record(ctx, oid + "/timers/set-for-the-same-instant", a[1] == b[1],
                                   detail=f"real code: due {a[1]}, spec: due {b[1]}")
@@ -962,9 +1225,10 @@ class OpHarness:
         if not getattr(c, "inv_done", None):
             return
         impl = [e for e in self.w.struct["impl"] if e[0] in ("sub", "sub-src", "timer")]
-        self.record(ctx, uid + "/after-termination/nothing-subscribed-or-scheduled", not impl, kind="frame",
-                    detail=f"after the sequence terminated the real code still does: {[e[0] for e in impl]} "
-                           f"(sub / sub-src = subscribes a source, timer = sets a timer)")
+        if getattr(c, "done_quiet", True):
+            self.record(ctx, uid + "/after-termination/nothing-subscribed-or-scheduled", not impl, kind="frame",
+                        detail=f"after the sequence terminated the real code still does: {[e[0] for e in impl]} "
+                               f"(sub / sub-src = subscribes a source, timer = sets a timer)")
         invd = self.check_inv(it, ctx, uid, cells_env, s, base=c.inv_done)
         self.record(ctx, uid + "/after-termination/terminated-invariant-preserved", invd, kind="inv")
 
@@ -999,6 +1263,25 @@ class OpHarness:
             return
         invd = self.check_inv(it, ctx, uid, cells_env, s, base=c.inv_done)
         self.record(ctx, uid + "/terminated-invariant-established", natives.mk_or((not done2) if isinstance(done2, bool) else z3.Not(done2), invd), kind="inv")
+
+    def cell_identities(self, it):
+        """what each state cell currently is (terms of symbolic collections / maps, identities otherwise)"""
+        out = {}
+        for n in self.c.cells:
+            for e in [self.cur_cells_env] + list(getattr(self, "extra_envs", [])):
+                try:
+                    get, set_, leaf = resolve_path(it, e, n)
+                except (Unsupported, KeyError):
+                    continue
+                v = get(leaf)
+                if isinstance(v, ListObj):
+                    out[n] = ("list", v.term if v.symbolic else tuple(id(x) for x in v.items))
+                elif isinstance(v, Opaque) and v.kind == "refmap":
+                    out[n] = ("map", v.attrs["m"], v.attrs["vals"])
+                else:
+                    out[n] = ("val", v)
+                break
+        return out
 
     # -- snapshots of the operator's cells / the spec state at a call-out ---------------------------
     def capture_impl(self, strict=False):
@@ -1185,6 +1468,7 @@ class OpHarness:
         c = self.c
         it, w, env, params = self.setup(ctx)
         uid = c.uid
+        self.step_uid = uid + "/subscribe"
         try:
             obs = self.build(it, env)
         except PyExc as e:
@@ -1278,6 +1562,9 @@ class OpHarness:
             cells_env = Env(None, env.module)
         inv0 = self.check_inv(it, ctx, f"{uid}/subscribe/inv", cells_env, s)
         self.record(ctx, f"{uid}/subscribe/inv-established", inv0, kind="inv")
+        v0 = self.spec_valid(it, ctx, s)
+        if v0 is not None:
+            self.record(ctx, f"{uid}/subscribe/spec-state-invariant-established", v0, kind="inv")
         self.disp = disp
         return it, w, cells_env, s, handlers
 
@@ -1296,12 +1583,31 @@ class OpHarness:
             get, set_, leaf = found
             havoc_cell(it, ctx, cells_env, leaf, kind, get, set_)
         self.havoc_spec_fields(it, ctx, s, c, "s_")
+        self.assume_valid(it, ctx, s)
         # callee stages: their spec state is arbitrary too; a stage that already terminated downstream is stopped
         for idx, (cs, cc, st, out) in enumerate(self.w.cspecs):
             self.havoc_spec_fields(it, ctx, cs, cc, f"c{idx}_", override=(getattr(c, "stage_args", None) or {}).get(idx))
+            self.assume_valid(it, ctx, cs)
             d = self.spec_done(it, ctx, cs)
             st["stopped"] = d if isinstance(d, bool) else ctx.branch(d, f"stage{idx} already terminated")
             st["in_stopped"] = False
+
+    def spec_valid(self, it, ctx, s):
+        """`valid(s)`: the spec machine's own state invariant (optional method), proved by its own unit: established by init,
+        preserved by every step - and therefore assumed wherever a spec state is arbitrary"""
+        m = it.class_lookup(s.cls, "valid")
+        if m is None:
+            return None
+        ctx.spec += 1
+        try:
+            return it.truth_term(it.call(BoundMethod(s, m), [], {}))
+        finally:
+            ctx.spec -= 1
+
+    def assume_valid(self, it, ctx, s):
+        v = self.spec_valid(it, ctx, s)
+        if v is not None:
+            ctx.assume(v if not isinstance(v, bool) else z3.BoolVal(v))
 
     def havoc_spec_fields(self, it, ctx, s, c, prefix, override=None):
         # spec state: havoc every non-parameter field by the kind of its initial value
@@ -1340,6 +1646,7 @@ class OpHarness:
         self.cur_source = source
         hname = ("on_next", "on_error", "on_completed")[slot]
         uid = f"{c.uid}/{source}.{hname}"
+        self.step_uid = uid
         self.havoc(it, ctx, cells_env, s)
         # effective invariant: done(s) \/ inv  -- after the operator terminated downstream nothing it
         # does is observable (C01), so its cells are unconstrained there; only "no exception
@@ -1406,7 +1713,7 @@ class OpHarness:
         self.compare_traces(ctx, uid + "/out", w.trace("observer"), w.trace("spec_out"))
         if getattr(c, "reentrant", False):
             self.compare_down_calls(it, ctx, uid)
-        if c.elem == "source" or len(c.sources) > 1 or getattr(c, "timed", False):
+        if c.elem == "source" or len(c.sources) > 1 or getattr(c, "timed", False) or getattr(c, "subjects", False) or c.families:
             self.compare_subscriptions(it, ctx, uid, self.n_subs_before)
         if getattr(c, "timed", False):
             s.fields["clock"] = IntSV(w.now_term)
@@ -1420,6 +1727,9 @@ class OpHarness:
             self.record(ctx, uid + "/inv-preserved", natives.mk_or(done2, inv2), kind="inv")
         self.done_established(it, ctx, uid, cells_env, s, done2)
         self.ghost_post(it, ctx, uid, cells_env, s, gpre)
+        v = self.spec_valid(it, ctx, s)
+        if v is not None:
+            self.record(ctx, uid + "/spec-state-invariant-preserved", v, kind="inv")
 
     def begin_step(self, w, cells_env, s):
         """fresh observation window for one handler step"""
@@ -1459,6 +1769,7 @@ class OpHarness:
             raise PathEnd()
         hname = ("on_next", "on_error", "on_completed")[slot]
         uid = f"{c.uid}/{fam}.{hname}"
+        self.step_uid = uid
         # --- creation step from an arbitrary state
         self.havoc(it, ctx, cells_env, s)
         done = self.spec_done(it, ctx, s)
@@ -1468,18 +1779,30 @@ class OpHarness:
         ctx.assume(inv if not isinstance(inv, bool) else z3.BoolVal(inv))
         inner = self.make_element(it, ctx)
         n0 = len(w.subs)
+        nc0 = len(w.cspecs)
         w.spec_subs.clear()
+        self.begin_step(w, cells_env, s)
         try:
             it.call(outer[0], [inner], {})
         except PyExc:
             raise PathEnd()
         self.spec_call(it, s, "on_next", [Opaque("observer", "spec_out"), inner])
+        self.in_handler = False
+        ctx.results.clear()  # the creating step is verified as the outer on_next
         member = None
         for (src, hs, kw, d) in w.subs[n0:]:
-            if src is inner:
+            if src is inner or (c.elem != "source" and src.name not in c.sources):
+                # the subscription this step made to the element itself / to the observable a user function returned for it
                 member = hs
+                if c.elem != "source":
+                    inner = src
         if member is None:
             raise PathEnd()  # not subscribed on this path (e.g. queued)
+        # the member reaches the operator's own closures directly or through callee stages (duration.pipe(take(1)))
+        member_stages = list(range(nc0, len(w.cspecs)))
+        real_handlers = list(member)
+        for idx in member_stages:
+            real_handlers.extend(x for x in w.cspecs[idx][3].attrs.get("handlers", ()) if x is not None)
         h = member[slot]
         ctx.spec += 1
         k = self.eval_src(it, F["id"], self.inv_env(it, cells_env, s)) if F.get("id") else None
@@ -1499,18 +1822,36 @@ class OpHarness:
                             return r
                     e = e.parent
             return None
-        member_env = next((e for e in (own_env(x) for x in member) if e is not None), cells_env)
+        member_env = next((e for e in (own_env(x) for x in real_handlers) if e is not None), cells_env)
+        if F.get("id_local"):
+            # the member's identity is what its own closure holds (e.g. the key of its group)
+            k = it.lookup(member_env, F["id_local"])
+        extra = {"k": k, "inner": inner}
+        if F.get("inv"):
+            # the member's own invariant holds from its creation on
+            invc = self.check_inv(it, ctx, uid, member_env, s, extra=extra, more=F.get("inv"))
+            donec = self.spec_done(it, ctx, s)
+            self.record(ctx, uid + "/member-inv-established-at-creation", natives.mk_or(donec, invc), kind="inv")
+            ctx.results[-1].oid = f"{c.uid}/{fam}/member-inv-established-at-creation"
         # --- an arbitrary later state in which this member is live
         self.havoc(it, ctx, cells_env, s)
+        for idx in member_stages:
+            # live: none of the stages between the member's source and the operator has terminated
+            if w.cspecs[idx][2]["stopped"] is True:
+                raise PathEnd()
         done = self.spec_done(it, ctx, s)
         is_done = done if isinstance(done, bool) else ctx.branch(done, "already-terminated")
-        extra = {"k": k, "inner": inner}
         if not is_done:
             inv = self.check_inv(it, ctx, uid, member_env, s, extra=extra, more=F.get("inv"))
             ctx.assume(inv if not isinstance(inv, bool) else z3.BoolVal(inv))
+        elif getattr(c, "inv_done", None):
+            invd = self.check_inv(it, ctx, uid, member_env, s, extra=extra, more=F.get("inv_done", F.get("inv")), base=c.inv_done)
+            ctx.assume(invd if not isinstance(invd, bool) else z3.BoolVal(invd))
         self.begin_step(w, cells_env, s)
+        before = self.cell_identities(it)
         if is_done:
             w.trace("observer").terminal = ("X",)
+            w.trace("spec_out").terminal = ("X",)
         args = []
         if slot == 0:
             args = [ctx.fresh("x", "val")]
@@ -1525,8 +1866,15 @@ class OpHarness:
             return
         if self.lockset:
             self.lockset_obligations(it, ctx, uid)
+        # which state cells can a handler of this family change? (loops of the operator that call out on subjects whose
+        # subscribers may re-enter such a handler must not walk those cells themselves)
+        after = self.cell_identities(it)
+        for n in before:
+            if not _same_identity(before[n], after.get(n)):
+                self.__dict__.setdefault("family_mutates_found", set()).add(n)
         if is_done:
             self.record(ctx, uid + "/after-termination/no-exception-escapes", True, kind="exc")
+            self.after_termination(it, ctx, uid, cells_env, s)
             return
         out = Opaque("observer", "spec_out")
         sargs = [out] + ([k] if k is not None else []) + args
@@ -1538,7 +1886,7 @@ class OpHarness:
         inv2 = self.check_inv(it, ctx, uid, cells_env, s)
         done2 = self.spec_done(it, ctx, s)
         self.record(ctx, uid + "/inv-preserved", natives.mk_or(done2, inv2), kind="inv")
-        if slot == 0 and F.get("inv"):
+        if slot == 0 and F.get("inv") and not F.get("once"):
             inv3 = self.check_inv(it, ctx, uid, member_env, s, extra=extra, more=F.get("inv"))
             self.record(ctx, uid + "/member-inv-preserved", natives.mk_or(done2, inv3), kind="inv")
 
@@ -1552,6 +1900,7 @@ class OpHarness:
             raise PathEnd()
         it, w, cells_env, s, handlers = r
         uid = f"{c.uid}/timer[{name}]"
+        self.step_uid = uid
         created_in = T.get("created_in", "subscribe")
         if created_in != "subscribe":
             ctx.results.clear()
@@ -1652,6 +2001,14 @@ class OpHarness:
         t0 = time.time()
         try:
             self._record_functions()
+            self.family_mutates = set()
+            if c.families and getattr(c, "subjects", False):
+                # phase A: which cells do the family handlers change?  (results discarded; phase B checks everything)
+                self.family_mutates_found = set()
+                for fam in c.families:
+                    for slot in (0, 1, 2):
+                        explore(lambda ctx, _f=fam, _k=slot: self.run_family_handler(ctx, _f, _k))
+                self.family_mutates = set(self.family_mutates_found)
             paths = explore(lambda ctx: self._subscribe_only(ctx))
             self._collect(paths)
             # which handlers exist?
